@@ -66,8 +66,8 @@ PAR_TOL = 1e-4        # linear variants: contribution-weighted parameter error r
 TAU_TOL = 1e-10       # relative
 CNLS_RES_TOL = 1e-2
 CNLS_PAR_TOL = 1e-1
-ARTEFACT_MAX = 1e-6   # predicted effect (rel. residual) of the -inv placeholder constants above which the instance is keyed separately;
-                      # 100x below RES_TOL; corresponds to |Z|*omega > 1e12 (real-inv) or |Z| > 1e12 ohm (imaginary-inv on Y)
+ARTEFACT_MAX = 3e-7   # predicted effect (rel. residual) of the -inv placeholder constants above which the instance is keyed separately;
+                      # 300x below RES_TOL/PAR_TOL; corresponds to |Z|*omega > 3e11 (real-inv) or |Z| > 3e11 ohm (imaginary-inv on Y)
 
 # Conditioning gate.  ratio and perdec are the property's own words (DESIGN C07 (i), (ii)); the rest bounds the rounding
 # error of the solver class in units of machine epsilon (kk_model.gate_stats):
